@@ -7,7 +7,7 @@
 (* from the fingerprint by the VIEW.                                         *)
 EXTENDS Wal
 
-CONSTANTS NW, NK, MaxOps, MaxGap, Kinds, Policies, MemSizes, BatchN, PeriodT, WL, SL, ML, FL, Strat, Thr,
+CONSTANTS NW, NK, MaxOps, Gaps, Kinds, Policies, MemSizes, BatchN, PeriodT, WL, SL, ML, FL, Strat, Thr,
           MaxLev, Dev,
           FixedScript     \* <<>>: TLC chooses the scripts; else [1..NW -> Seq([gap, kind, key])] followed exactly
 
@@ -29,7 +29,7 @@ Running == m.phase = "run" /\ m.q # <<>>
 Scripted == FixedScript # <<>>
 GapChoices(mm, w) ==
     IF Scripted THEN {IF mm.cl[w].n < Len(script[w]) THEN script[w][mm.cl[w].n + 1].gap ELSE STOP}
-    ELSE IF mm.cl[w].n < MaxOps THEN (0..MaxGap) \cup {STOP} ELSE {STOP}
+    ELSE IF mm.cl[w].n < MaxOps THEN Gaps \cup {STOP} ELSE {STOP}
 
 SegStep(pcname) ==
     /\ Running /\ HeadPc(m) = pcname
